@@ -19,7 +19,7 @@ from ..topo import REF, Topo, KIND_OF_CLASS, geometry_problems, mesh_measure
 ID = 'C18'
 # sub-checks added after the seeded-change waves (DESIGN.md sections 5 and 6)
 EXTENSIONS = [
-    'scrambled / reversed line meshes in extrusion; joins that keep unused vertices; join with the reflection (+0.0 / -0.0); joins in a 2^-7 length unit; descending / list restrict forms; chained @; to_meshtri with one kind of tag only; restricting to an empty tag is not a legal input',
+    'scrambled / reversed line meshes in extrusion; join with the reflection (+0.0 / -0.0); joins in a 2^-7 length unit; descending / list restrict forms; chained @; to_meshtri with one kind of tag only; restricting to an empty tag is not a legal input',
 ]
 LEVEL = 'model_checking'
 TECHNIQUE = "explicit-state BFS over compositions of mesh operations; exact geometric transition relation per operation; tag saturation"
@@ -285,26 +285,8 @@ def ops_for(st, bd, level):
                             return
                     out.outcome(('matmul-chain', len(A), len(B)))
                 ops.append((f'(restrict({list(A)}) @ restrict({list(B[:1])}))[0] @ restrict({list(B[1:])})', thunk_c, j_chain))
-            if len(ops) % 3 == 0:
-                # the same two parts as meshes that keep the WHOLE vertex array (unused vertices, also trailing ones)
-                def thunk_u(m, A=A, B=B):
-                    nn_ = REF[kind]['nn']
-                    kw_ = {'sort_t': False} if type(m).__name__ == 'MeshTri1' and not m.sort_t else {}
-                    a = type(m)(m.p.copy(), m.t[:, list(A)].copy(), **kw_)
-                    b = type(m)(m.p.copy(), m.t[:, list(B)].copy(), **kw_)
-                    return a + b, [a, a], a, b
-
-                def j_join_u(m0, res, bad, out, A=A, B=B):
-                    m1 = res[0]
-                    k0 = cell_keys(m0, kind)
-                    want = [k0[c] for c in A] + [k0[c] for c in B]
-                    if cell_keys(m1, kind) != want:
-                        bad('join-cells', f"the join of two meshes that keep unused vertices (cells {list(A)} + cells {list(B)} over "
-                            f"the whole vertex array) does not reproduce the cells")
-                        return
-                    check_valid(m1, kind, bad, hanging=False, unused_ok=True)
-                    out.outcome(('join-unused', len(A), len(B)))
-                ops.append((f'keep-all-vertices({list(A)})+keep-all-vertices({list(B)})', thunk_u, j_join_u))
+            # (operands that keep points no cell uses are rejected by Mesh.is_valid(): not in the property's domain; only the
+            # library-made results of '@', which share one vertex array by design, are chained below)
     # ---- join in a small length unit: the library rounds to 8 decimals by design, so joined coordinates are right to 5e-9
     if not cheap and nt >= 2 and nt <= 8:
         def thunk_s(m):
